@@ -169,6 +169,15 @@ def _service(calls):
         def bare0(ctx):
             return Pt(x=4, s='z')
 
+        @rpc(_returns=[Pt, Pt])
+        def same_twice(ctx):
+            p = Pt(x=8, s='same')          # one object given as both return values
+            return p, p
+
+        @rpc(_returns=Array(Pt))
+        def same_in_array(ctx):
+            return [Pt(x=9, s='rep')] * 2
+
         @rpc(_returns=Array(Integer), _body_style='bare')
         def bare0arr(ctx):
             return [4, 5]
@@ -186,7 +195,9 @@ CALLS = [('w0', (), {}), ('w1', (5,), {}), ('w1', (), {'i': 5}), ('w1', (0,), {}
          ('bare', (1, 'q'), {}), ('arr', (), {}), ('gen', (), {}), ('boom', (1,), {}), ('boom', (2,), {}),
          ('ign', (5,), {}), ('none_complex', (), {}), ('falsy', (1,), {}), ('bare0', (), {}), ('bare0arr', (), {}),
          ('bare0gen', (), {}), ('boom', (3,), {}), ('boom', (4,), {}), ('boom_void', (1,), {}), ('boom2', (1,), {}),
-         ('ign2', (5,), {})]
+         ('ign2', (5,), {}), ('same_twice', (), {}), ('same_in_array', (), {}),
+         # values that are false in a boolean context, field-wise for a bare complex argument; no field at all
+         ('bare', (0, ''), {}), ('bare', (), {'x': 0, 's': ''}), ('bare', (), {}), ('w2', (), {}), ('w3', (0,), {})]
 
 
 def norm(v):
@@ -235,9 +246,9 @@ def wire_json(c, name, args, kwargs):
 
 @obligation('C18.relational.json', targets=['spyne.server.null:_FunctionCall.__call__', 'spyne.server.null:_cb_sync',
                                             'spyne.application:Application.process_request'],
-            bounded="25 calls over 15 signatures: body styles wrapped / out_bare / bare with a complex argument passed "
+            bounded="32 calls over 23 signatures: body styles wrapped / out_bare / bare with a complex argument passed "
                     "field-wise / empty; 0, 1, 2, 3 return values; array and generator results; Fault, non-Fault, "
-                    "Ignored; positional vs keyword; falsy values",
+                    "Ignored; positional vs keyword; falsy values; one object returned twice (two return values, array items)",
             desc="server.service.m(...) returns (or raises) the same native result that a client obtains by sending the "
                  "same call as a JsonDocument request and decoding the reply; an Ignored return reaches the direct caller "
                  "and is empty on the wire")
@@ -277,8 +288,114 @@ def relational(c):
         c.check('same_values_as_wire', list(got) == list(wire_vals if isinstance(wire_vals, list) else [wire_vals]),
                 detail=(got, wire))
     else:
-        c.check('same_value_as_wire', got == wire_vals, detail=(got, wire))
+        def unset_dropped(v):
+            # dict documents do not send unset members
+            if isinstance(v, dict):
+                return {k: unset_dropped(x) for k, x in v.items() if x is not None}
+            if isinstance(v, list):
+                return [unset_dropped(x) for x in v]
+            return v
+        c.check('same_value_as_wire', unset_dropped(got) == unset_dropped(wire_vals), detail=(got, wire))
     c.check('wire_ok', status.startswith('200'), detail=status)
+
+
+def _mk_relational_xml(wire):
+    @obligation('C18.relational.%s' % wire, targets=['spyne.server.null:_FunctionCall.__call__', 'spyne.server.null:_cb_sync',
+                                                     'spyne.protocol.xml:XmlDocument.deserialize',
+                                                     'spyne.protocol.xml:XmlDocument.serialize'],
+                bounded="the same calls as C18.relational.json (faults and Ignored excepted: C18.relational.json / C18.ignored.*), "
+                        "sent as documents built by the reference XML encoder and decoded by the reference decoder",
+                desc="server.service.m(...) returns the same native result that a client obtains by sending the same call as "
+                     "an %s request and decoding the reply" % wire)
+    def ob(c):
+        from spec import xmlref
+        calls_ = [x for x in CALLS if not x[0].startswith('boom') and not x[0].startswith('ign')]
+        name, args, kwargs = c.choose(calls_, 'call')
+        calls = []
+        Svc = _service(calls)
+        server = NullServer(Application([Svc], TNS, in_protocol=JsonDocument(), out_protocol=JsonDocument()))
+        out = c.run(getattr(server.service, name), *args, **kwargs)
+        c.check('null_returns', out.returned, detail=repr(out))
+        if not out.returned:
+            return
+        if hasattr(out.value, '__next__'):
+            out.value = list(out.value)          # a generator result is read once
+        got = norm(out.value)
+        P = {'xml': XmlDocument, 'soap11': Soap11}[wire]
+        app = Application([_service([])], TNS, in_protocol=P(), out_protocol=P())
+        d = app.interface.service_method_map['{%s}%s' % (TNS, name)][0]
+        root = etree.Element('{%s}%s' % (TNS, name), nsmap={'tns': TNS, 'xsi': xmlref.XSI})
+        in_ti = d.in_message._type_info
+        if name == 'bare':
+            fields = dict(zip(['x', 's'], args))
+            fields.update(kwargs)
+            for k, ft in Pt.get_flat_type_info(Pt).items():
+                xmlref.encode_into(root, ft, fields.get(k), k, TNS)
+        else:
+            a = dict(zip(in_ti.keys(), args))
+            a.update(kwargs)
+            for k, ft in in_ti.items():
+                xmlref.encode_into(root, ft, a.get(k), k, TNS)
+        body = etree.tostring(root)
+        if wire == 'soap11':
+            body = b'<e:Envelope xmlns:e="http://schemas.xmlsoap.org/soap/envelope/"><e:Body>' + body + b'</e:Body></e:Envelope>'
+        env = {'REQUEST_METHOD': 'POST', 'PATH_INFO': '/', 'QUERY_STRING': '', 'SERVER_NAME': 'h', 'SERVER_PORT': '80',
+               'wsgi.url_scheme': 'http', 'wsgi.input': io.BytesIO(body), 'CONTENT_TYPE': 'text/xml', 'CONTENT_LENGTH': str(len(body))}
+        seen = []
+
+        def sr(status, headers, exc_info=None):
+            seen.append(status)
+        sr._pyvc_native = True
+        w = c.run(WsgiApplication(app), env, sr)
+        c.check('wire_call_returns', w.returned, detail=repr(w))
+        if not w.returned:
+            return
+        chunks = []
+        c.run(lambda: chunks.extend(list(w.value)))
+        resp = b''.join(x for x in chunks if isinstance(x, bytes))
+        c.check('wire_ok', bool(seen) and seen[0].startswith('200'), detail=(seen, resp[:300], body[:300]))
+        if not (seen and seen[0].startswith('200')):
+            return
+        rroot = etree.fromstring(resp)
+        rmsg = rroot if wire == 'xml' else rroot.find('{http://schemas.xmlsoap.org/soap/envelope/}Body')[0]
+        out_ti = d.out_message._type_info if hasattr(d.out_message, '_type_info') else {}
+        if d.is_out_bare() and not issubclass(d.out_message, ComplexModel):
+            # a bare primitive / array result: the message element is the value
+            holder = etree.Element('h')
+            holder.append(rmsg)
+            T = d.out_message
+            wire_val = xmlref.decode_from(holder, T, rmsg.tag.split('}')[-1], TNS)
+            c.check('same_value_as_wire', norm_x(T, got) == xmlref.norm(T, wire_val), detail=(got, wire_val, resp[:300]))
+        elif d.is_out_bare():
+            T = d.out_message
+            dec = {k: xmlref.decode_from(rmsg, ft, k, TNS) for k, ft in T.get_flat_type_info(T).items()}
+            c.check('same_value_as_wire', norm_x(T, out.value) == xmlref.norm(T, dec), detail=(got, dec, resp[:300]))
+        else:
+            vals = []
+            for k, t in out_ti.items():
+                vals.append((t, xmlref.decode_from(rmsg, t, k, TNS)))
+            n_out = len(out_ti)
+            if n_out == 0:
+                c.check('no_return_value_both_empty', out.value is None and len(rmsg) == 0, detail=(got, resp[:200]))
+            elif n_out == 1:
+                c.check('same_value_as_wire', norm_x(vals[0][0], out.value) == xmlref.norm(*vals[0]), detail=(got, vals[0][1], resp[:300]))
+            else:
+                direct = list(out.value) if isinstance(out.value, (list, tuple)) else [out.value]
+                c.check('same_values_as_wire', [norm_x(t, v) for (t, _), v in zip(vals, direct)] == [xmlref.norm(t, v) for t, v in vals]
+                        and len(direct) == n_out, detail=(got, [v for _, v in vals], resp[:300]))
+    return ob
+
+
+def norm_x(t, v):
+    """the direct caller's value in the reference codec's comparison form (generators are consumed)"""
+    from spec import xmlref
+    if hasattr(v, '__next__'):
+        v = list(v)
+    return xmlref.norm(t, v)
+
+
+for _w in ('xml', 'soap11'):
+    _mk_relational_xml(_w)
 
 
 @obligation('C18.aux', targets=['spyne.server.null:_FunctionCall.__call__'],
